@@ -174,6 +174,9 @@ fn enforcement_case(ctx: &mut Ctx, start: &str, steps: &[Value], validate_nbf: b
     let req = |c: &str| v.required_spec_claims.as_ref().map_or(false, |r| r.contains(c));
     match variant {
         "all-satisfied" => {}
+        // claims no setting of the policy speaks about must not matter, whatever they say
+        "iat-future" => { p["iat"] = json!(t + 3600); }
+        "iat-odd" => { p["iat"] = json!("yesterday"); p["jti"] = json!(5); }
         "exp-expired" => { p["exp"] = json!(t - lee - 5); expect = !v.validate_exp; }
         "exp-within-leeway" => { p["exp"] = json!(t - lee + 30); applicable = lee > 35; }
         "exp-missing" => { p.as_object_mut().unwrap().remove("exp"); expect = !v.validate_exp && !req("exp"); }
@@ -236,7 +239,7 @@ fn enforcement_case(ctx: &mut Ctx, start: &str, steps: &[Value], validate_nbf: b
 }
 
 const VARIANTS: &[&str] = &[
-    "all-satisfied", "exp-expired", "exp-within-leeway", "exp-missing", "exp-string", "nbf-future", "nbf-within-leeway", "nbf-missing",
+    "all-satisfied", "iat-future", "iat-odd", "exp-expired", "exp-within-leeway", "exp-missing", "exp-string", "nbf-future", "nbf-within-leeway", "nbf-missing",
     "aud-wrong", "aud-array-disjoint", "aud-array-containing", "aud-missing", "aud-number", "iss-wrong", "iss-missing", "sub-wrong", "sub-missing",
     "required-missing", "other-alg",
 ];
@@ -244,8 +247,14 @@ const VARIANTS: &[&str] = &[
 /// the key-binding policy is a `Validation` too: every setting of it must be enforced on the
 /// key-binding JWT, whatever the token itself says (e.g. an `alg` member in the `cnf` key)
 fn kb_policy_case(ctx: &mut Ctx, policy_alg: &str, sign_alg: &str, cnf_alg: Option<&str>, policy_aud: Option<&str>, token_aud: Option<&str>) {
+    kb_policy_case_exp(ctx, policy_alg, sign_alg, cnf_alg, policy_aud, token_aud, None)
+}
+
+/// `kb_exp`: `None` = the policy switches expiry off (as every key-binding policy in the crate's examples does);
+/// `Some(x)` = the policy keeps expiry validation on and the key-binding JWT carries `exp = now + x` (`Some(0)`: no `exp`)
+fn kb_policy_case_exp(ctx: &mut Ctx, policy_alg: &str, sign_alg: &str, cnf_alg: Option<&str>, policy_aud: Option<&str>, token_aud: Option<&str>, kb_exp: Option<i64>) {
     ctx.report.evaluations += 1;
-    let case = json!({"kind":"kb-policy","policy_alg":policy_alg,"sign_alg":sign_alg,"cnf_alg":cnf_alg,"policy_aud":policy_aud,"token_aud":token_aud});
+    let case = json!({"kind":"kb-policy","policy_alg":policy_alg,"sign_alg":sign_alg,"cnf_alg":cnf_alg,"policy_aud":policy_aud,"token_aud":token_aud,"kb_exp":kb_exp});
     real::set_current(&case);
     let mut jwk = keys::holder_jwk();
     match cnf_alg { Some(a) => { jwk["alg"] = json!(a); } None => { jwk.as_object_mut().unwrap().remove("alg"); } }
@@ -260,12 +269,13 @@ fn kb_policy_case(ctx: &mut Ctx, policy_alg: &str, sign_alg: &str, cnf_alg: Opti
     };
     let mut claims = json!({"nonce": "n", "iat": now(), "sd_hash": sd_hash});
     if let Some(a) = token_aud { claims["aud"] = json!(a); }
+    if let Some(x) = kb_exp { if x != 0 { claims["exp"] = json!(now() + x); } }
     let mut kh = Header::new(alg_of(sign_alg));
     kh.typ = Some("kb+jwt".into());
     let kb = match real::sign(&kh, &claims, &keys::enc_key(1, 1)) { Out::Ok(k) => k, _ => return };
-    let mut policy = Validation::new(alg_of(policy_alg)).without_expiry();
+    let mut policy = if kb_exp.is_some() { Validation::new(alg_of(policy_alg)) } else { Validation::new(alg_of(policy_alg)).without_expiry() };
     if let Some(a) = policy_aud { policy = policy.with_audience(a); }
-    let expect = policy_alg == sign_alg && (policy_aud.is_none() || policy_aud == token_aud);
+    let expect = policy_alg == sign_alg && (policy_aud.is_none() || policy_aud == token_aud) && kb_exp.map_or(true, |x| x > 0);
     ctx.report.bump(&format!("kb-policy:{}", if expect { "must-accept" } else { "must-reject" }));
     ctx.report.nontrivial_case(&case);
     let issuer_policy = Validation::default().without_expiry().with_algorithm(Algorithm::HS256);
@@ -285,6 +295,13 @@ fn kb_policy_case(ctx: &mut Ctx, policy_alg: &str, sign_alg: &str, cnf_alg: Opti
 
 fn kb_policies(ctx: &mut Ctx) {
     let algs = ["RS256", "RS384", "RS512", "PS256"];
+    // a key-binding policy that keeps expiry validation on: expired / missing `exp` rejected, a future one accepted
+    for a in algs {
+        for x in [3600i64, -3600, 0] {
+            kb_policy_case_exp(ctx, a, a, Some("RS256"), None, Some("aud-a"), Some(x));
+            kb_policy_case_exp(ctx, a, a, None, Some("aud-a"), Some("aud-a"), Some(x));
+        }
+    }
     for pa in algs {
         for sa in algs {
             for ca in [None, Some("RS256"), Some("RS512"), Some("PS256"), Some("HS256"), Some("none")] {
